@@ -44,14 +44,17 @@ func die(format string, a ...interface{}) {
 
 // seam table: (import path, name) -> simrt name. "!" = unsupported (build fails).
 var seams = map[string]map[string]string{
-	"sync": {"Mutex": "Mutex", "RWMutex": "RWMutex", "Pool": "Pool", "WaitGroup": "WaitGroup", "Cond": "!", "NewCond": "!", "Map": "!"},
+	"sync": {"Mutex": "Mutex", "RWMutex": "RWMutex", "Pool": "Pool", "WaitGroup": "WaitGroup", "Once": "Once", "Cond": "!", "NewCond": "!", "Map": "!", "OnceFunc": "!", "OnceValue": "!", "OnceValues": "!"},
 	"time": {"Now": "Now", "Since": "Since", "Until": "Until", "Sleep": "Sleep",
 		"After": "After", "AfterFunc": "!", "NewTimer": "!", "NewTicker": "!", "Tick": "!"},
 	"os":                           {"ReadFile": "ReadFile", "Open": "Open", "OpenFile": "OpenFile", "Stat": "Stat", "Lstat": "Stat"},
 	"io/ioutil":                    {"ReadFile": "ReadFile"},
 	"github.com/fsnotify/fsnotify": {"NewWatcher": "NewWatcher", "NewBufferedWatcher": "NewBufferedWatcher", "Watcher": "Watcher"},
 	"database/sql":                 {"Open": "SQLOpen"},
-	"net":                          {"InterfaceByIndex": "InterfaceByIndex", "InterfaceByName": "InterfaceByName", "Interfaces": "Interfaces"},
+	"net": {"InterfaceByIndex": "InterfaceByIndex", "InterfaceByName": "InterfaceByName", "Interfaces": "Interfaces", "InterfaceAddrs": "InterfaceAddrs",
+		// real sockets and the resolver have no place in a simulated run (the server's sockets come from server4/server6)
+		"Listen": "!", "ListenPacket": "!", "ListenUDP": "!", "ListenMulticastUDP": "!", "ListenIP": "!", "ListenConfig": "!", "Dial": "!", "DialUDP": "!", "DialIP": "!",
+		"DialTimeout": "!", "Dialer": "!", "FilePacketConn": "!", "FileConn": "!", "LookupHost": "!", "LookupIP": "!", "LookupAddr": "!", "ResolveUDPAddr": "!", "ResolveIPAddr": "!"},
 	"syscall":                      {"Socket": "SysSocket", "Close": "SysClose", "SetsockoptInt": "SysSetsockoptInt", "Sendto": "SysSendto"},
 	// the UDP sockets of server.listen4/listen6 ("pkg:Name" = a name in zzverif/<pkg>; the type names are kept so that
 	// the embedded field of listener4/listener6 is still called PacketConn)
@@ -635,6 +638,16 @@ func (r *rewriter) expr(e ast.Expr) ast.Expr {
 		if id, ok := x.Fun.(*ast.Ident); ok && id.Name == "close" {
 			if _, isBuiltin := r.info.Uses[id].(*types.Builtin); isBuiltin && len(x.Args) == 1 {
 				return r.call("Close", r.expr(x.Args[0]))
+			}
+		}
+		if sel, ok := x.Fun.(*ast.SelectorExpr); ok && len(x.Args) == 0 {
+			// (net.Interface).Addrs / MulticastAddrs ask the real kernel about an interface index: simulated interface table instead
+			if sl := r.info.Selections[sel]; sl != nil && sl.Kind() == types.MethodVal {
+				if fn, ok := sl.Obj().(*types.Func); ok && fn.Pkg() != nil && fn.Pkg().Path() == "net" && (fn.Name() == "Addrs" || fn.Name() == "MulticastAddrs") {
+					if recv := fn.Type().(*types.Signature).Recv(); recv != nil && strings.HasSuffix(recv.Type().String(), "net.Interface") {
+						return r.call("Iface"+fn.Name(), &ast.SelectorExpr{X: &ast.ParenExpr{X: r.expr(sel.X)}, Sel: ast.NewIdent("Index")})
+					}
+				}
 			}
 		}
 		x.Fun = r.expr(x.Fun)
